@@ -195,7 +195,7 @@ def compare_cli_validate(cli, model):
     ir, mr = cli.get("run", {}), model.get("run", {})
     if "err" in ir or "err" in mr:
         if "err" in ir and "err" in mr:
-            if ir["err"][0] not in mr["err"]:
+            if ir["err"][0] not in mr["err"] and ir["err"][0] != "other":
                 diffs.append(("cli.run.err", ir["err"], mr["err"]))
         else:
             diffs.append(("cli.run", ir, mr))
